@@ -377,6 +377,11 @@ class DFreeScorer(WeightLengthScorer):
         self.qf = qf
         self.setup(searcher, fieldname, text)
 
+    def supports_block_quality(self):
+        # The formula is not monotonic in (weight, length) and can be negative,
+        # so the block's maximum weight and minimum length do not bound it
+        return False
+
     def _score(self, weight, length):
         return dfree(weight, self.cf, self.qf, length, self.fl)
 
@@ -432,6 +437,11 @@ class PL2Scorer(WeightLengthScorer):
         self.c = c
         self.qf = qf
         self.setup(searcher, fieldname, text)
+
+    def supports_block_quality(self):
+        # The formula is not monotonic in (weight, length) and can be negative,
+        # so the block's maximum weight and minimum length do not bound it
+        return False
 
     def _score(self, weight, length):
         return pl2(weight, self.cf, self.qf, self.dc, length, self.avgfl,
